@@ -212,6 +212,9 @@ var c10AbsCases = []struct {
 	{"{k is{...on I{...on I{b}}}}", "b", "", ""},                // nested, same condition
 	{"{k us{a}}", "a", "B.a", "B"},                              // fields straight under a union-typed field are looked up per member
 	{"{k us{__typename b}}", "b", "A.b", "A"},                   //
+	{"{k is{x ...{a}}}", "a", "", ""},                           // an inline fragment without a condition does not narrow the type
+	{"{k is{... @include(if:true){b}}}", "b", "", ""},           //
+	{"{k is{...on I{...{a}}}}", "a", "", ""},                    //
 	{"{k is{x} ca{zz}}", "zz", "", ""},                          // defined nowhere (control)
 }
 
